@@ -244,6 +244,28 @@ pub fn run_c11(opts: &Opts, out: &mut Emitter) {
         };
         out.case("random", || json!({"probe": "roundtrip", "tx": tx_json(&tx), "obs": roundtrip_obs(&tx)}));
     }
+    // length sweep: byte strings, texts, lists and names at the lengths where encoders and decoders change gear
+    // (CBOR head widths 23/24, 255/256; the 4096-byte scratch buffer of the decoder; script-sized payloads; longer
+    // ones make the model reader, which works on lists, take minutes), in a datum, a redeemer, an address and a parameter name
+    for len in [0usize, 23, 24, 255, 256, 4095, 4096, 4097, 5000] {
+        use tx3_tir::model::v1beta0::Expression as E;
+        let bytes: Vec<u8> = (0..len).map(|i| (i % 251) as u8).collect();
+        let text: String = (0..len).map(|i| (b'a' + (i % 26) as u8) as char).collect();
+        let shapes: Vec<(&str, E)> = vec![
+            ("bytes", E::Bytes(bytes.clone())),
+            ("text", E::String(text.clone())),
+            ("address", E::Address(bytes.clone())),
+            ("hash", E::Hash(bytes.clone())),
+            ("list", E::List((0..len.min(5000)).map(|i| E::Number(i as i128)).collect())),
+            ("param-name", param(&text, tx3_tir::model::core::Type::Custom(text.clone()))),
+        ];
+        for (what, e) in shapes {
+            let mut t = empty_tx();
+            t.outputs.push(tir::Output { address: E::None, datum: e.clone(), amount: E::None, optional: false });
+            t.mints.push(tir::Mint { amount: E::None, redeemer: e });
+            out.case("length-sweep", || json!({"probe": "roundtrip", "origin": format!("{what}:{len}"), "tx": tx_json(&t), "obs": roundtrip_obs(&t)}));
+        }
+    }
     // type sweep: a parameter of every `Type`, custom types under names that collide with the spelling of other
     // things on the wire (the built-in variant names, field names, the empty string)
     {
